@@ -171,7 +171,8 @@ class VariableSetProcessor(Collector):
     def __log_str(value: any) -> str:
         """Get the text to use when the value is interpolated into a log message (str can fail on user types)."""
         try:
-            return str(value)
+            # (reduced to a plain str: __str__ may answer with a str subclass that has a __format__ of its own)
+            return str.__str__(str(value))
         except BaseException:
             return f'{type(value)}@{id(value)}'
 
